@@ -67,6 +67,9 @@ PARSER_TREES = {
     # surrogate escapes after the string has outgrown the 16-byte inline buffer (a spilled buffer may take other code paths)
     'surrpad': dict(alpha=toks('\\uD800', '\\uDC00', '\\u0041', 'x', '\U00010000', '\\n'),
                     prefix='"abcdefghijklmnopq', suffix='"', opts=ALLOPTS, maxlen={'quick': 4, 'thorough': 5}),
+    # several strings and keys in one document: whatever a string leaves pending must not reach the next one
+    'surrseq': dict(alpha=toks('\\uD800', '\\uDC00', 'a', '","', '":"', '\\u0041'),
+                    prefix='{"', suffix='"}', opts=ALLOPTS, maxlen={'quick': 4, 'thorough': 5}),
     # tokens with whitespace and multi-byte characters: code-map spans
     'tokens': dict(alpha=toks('[', ']', '{', '}', ',', ':', ' ', '"\u00e9"', '"\\u00e9\U0001F600"', '-1.5e3', 'true', '\r\n'),
                    prefix='', suffix='', opts=STRICT, maxlen={'quick': 6, 'thorough': 7}),
